@@ -22,6 +22,7 @@ def run(ctx, pid=PID, check=_life.check_c03, with_up=WITH_UP):
     entries = scope.forecasters()
     ctx.exhaustive = False
     trace = []
+    replayed = {}
     tid = 0
     for ei, entry in enumerate(entries):
         pool = by_mode[entry["mode"]]
@@ -49,6 +50,8 @@ def run(ctx, pid=PID, check=_life.check_c03, with_up=WITH_UP):
                 break
             if not bad:
                 tid += 1
+                replayed[tid] = {"forecaster": entry["name"], "mode": entry["mode"], "origin": origin,
+                                 "index_kind": kind, "fhvariant": bi, "beh": beh}
                 trace += _life.trace_events(tid, beh["mode"], beh["hist"], obs)
             if bi == 0 and ei % 6 == 0:
                 ctx.sample({"forecaster": entry["name"], "origin": origin,
@@ -106,8 +109,12 @@ def run(ctx, pid=PID, check=_life.check_c03, with_up=WITH_UP):
             ctx.violation({"forecaster": entry["name"], "mode": entry["mode"], "origin": origin,
                            "random_hist": hist},
                           "code->spec: TLC rejects recorded trace of %s at clause %s" % (entry["name"], clauses))
+        elif t in replayed:
+            # the snapshot comparison of this check covers its own clauses; the judge evaluates the whole specification
+            ctx.violation(replayed[t], "code->spec: TLC rejects the replayed behaviour of %s at clause %s"
+                          % (replayed[t]["forecaster"], clauses))
         else:
-            raise T_err("replayed behaviour accepted by equality but rejected by the judge: tid %s %s\n%s"
+            raise T_err("judge rejects an unknown trace: tid %s %s\n%s"
                         % (t, clauses, "\n".join(canon(r) for r in allrecs if r["tid"] == t)))
     return ctx.finish(
         rule="Behaviours (call sequences over fit/update/predict/update_predict_single%s with every batch "
